@@ -1366,6 +1366,7 @@ func init() {
 			"In three quarters of the cases (tag own-decorations-registered-concurrently) the goroutines also WRITE the registry, each under names of its own: the first thing every goroutine does after the start barrier is to register a decoration under a name nobody else uses (decoration.RegisterDecorationName), 3-12 such house styles follow after the first lookups and one more for every other table; each is looked up (Named, also before it is registered and under a name nobody registers), selected on a table of the goroutine's own (SetDecorationNamed + Render, auto.Render with the name, with texttable.<name>, and with a trailing sub-style section so that auto first probes a longer name that is not registered), looked for in RegisteredDecorationNames / auto.ListStyles, every third one is re-registered with another decoration and selected again; the table that got a house style is rendered in it four ways. A name is fresh whenever it is registered (it carries the phase), plain, dotted or upper-case, and is not part of any output. Every goroutine logs what it did about its own names and the answers it got (OpW/OpR/OpL); Coq judges the log against the goroutine's solo run on the registry model (own_ok; by c16_own_oracle_any_schedule what every interleaving gives on the model); after the join every registered name must hold what its goroutine registered last and be listed; the readers' listings must be strictly sorted and may only grow, and only by such names. " +
 			"A watchdog in the child: when nothing (no render, no registry operation of those rounds) has finished for 3 s and a dump of all goroutines shows every goroutine of the run blocked - none running, runnable or sleeping - twice, one second apart, the run is reported as stuck (ok = false) instead of waiting for ever. " +
 			"Reference ('rendered alone'): the same programmes run alone in the same process, twice (before the goroutines in warm cases; in cold cases - half - after them, and then the process does not touch the library or the registry before the goroutines do: built-in names are constants, readers check their own first answers against the registry afterwards); in a third of the cases (8-12 goroutines) each goroutine's reference is instead computed in a pristine child process of its own and the same-process solo run is the correspondence side. Goroutine count, GOMAXPROCS (1..16), tables, iterations vary by seed. " +
+			"Round 6, two more kinds of case: (items-of-every-kind=true) 8-12 goroutines, each with a reference from a process of its own, also own 2-4 tables whose cells hold items of every Go kind whose text form holds no address - the integer, float and complex kinds, string, array, slice, map, struct, pointer to struct, interface, nil; per kind several types (plain, with encoding/json field options, with unexported fields only, with String / MarshalJSON / MarshalText methods, an error value) - the types common to all goroutines, the values (the zero value 40% of the time, else small non-zero ones) each goroutine's own, rendered in the five formats; (dense-in-one-renderer=true) one case per format class (csv, json, markdown, html, texttable): 8-16 goroutines, a minimal programme in that class only, and then each renders a small table of its own (2 columns, 4-8 rows, a few texts of the pool of texts needing escaping and of the shared short texts repeated down each column, a different few per goroutine; rebuilt every fourth turn) 400 times (thorough: 1500) in that class, all goroutines at the same time; the distinct outputs per goroutine are compared with what the table gives alone (one). " +
 			"A case is non-trivial when at least two goroutines rendered concurrently; distinct = distinct (seed, goroutines, GOMAXPROCS, tables, iterations, readers, formats, outcome)",
 		Exhaustive: "",
 		Gen: func(r *RNG, tier string) []json.RawMessage {
